@@ -105,6 +105,9 @@ func (defaultSharedInitializeCaller) Call(s *slip.Scope, args slip.List, depth i
 	}
 	for k, v := range obj.Type.defaultsMap() {
 		sd := obj.Type.initArgDef(k)
+		if sd == nil {
+			slip.ErrorPanic(s, depth, "%s is not a valid initarg for %s.", k, obj.Type.Name())
+		}
 		for _, sd = range append([]*SlotDef{sd}, obj.Type.sharedInitArgDefs(k)...) {
 			if _, has := nameMap[sd.name]; !has {
 				if v == nil {
